@@ -216,6 +216,7 @@ def run_c05(ctx):
     nops = t.int_between(1, 8, "nops")
     expanded = False
     for opi in range(nops):
+        t.mark()
         op = t.weighted([("harvest_combos", 5), ("harvest_cases", 3), ("add_ds", 2),
                          ("save_merge_ds", 2), ("new_session", 3), ("drop_sel", 1),
                          ("expand_dims", 1)], "op")
